@@ -440,6 +440,7 @@ extern "C" {
         scpi_parser_state_t parser_state;
         const char * idn[4];
         size_t arbitrary_remaining;
+        scpi_bool_t separator_pending;
     };
 
     enum _scpi_array_format_t {
